@@ -143,6 +143,26 @@ def validate_chunks(sd, trace, timeout, maxlines=1200000, par=3):
     return sum(r[0] for r in res), [x for r in res for x in r[1]]
 
 
+def run_psim(binp, scheds, sp, trace, tmo, extra=()):
+    """Executes the schedules on the real code in batches (a fresh process per batch: parked goroutines of injected crashes and
+    their file descriptors die with the process); trace numbers are global."""
+    B = 6000
+    with open(trace, "w") as out:
+        for off in range(0, len(scheds), B):
+            with open(sp, "w") as f:
+                for s in scheds[off:off + B]:
+                    f.write(json.dumps(s) + "\n")
+            nodes = tempfile.mkdtemp(prefix="verif-nodes-", dir="/dev/shm" if os.path.isdir("/dev/shm") else None)
+            part = trace + ".part"
+            try:
+                vp.run([binp, "-schedules", sp, "-out", part, "-workers", str(vp.NCPU), "-tmp", nodes, "-offset", str(off)] + list(extra), timeout=tmo)
+            finally:
+                shutil.rmtree(nodes, ignore_errors=True)
+            with open(part) as f:
+                shutil.copyfileobj(f, out, 1 << 20)
+            os.remove(part)
+
+
 def run_all(tier):
     """Shared run for all properties of this engine; cached per (tree, spec, harness, tier, seed)."""
     key = "%s-%s-%d%s" % (tree_hash(), tier, vp.seed(), ("-only-" + hashlib.sha256(os.environ["VERIF_ONLY"].encode()).hexdigest()[:8]) if os.environ.get("VERIF_ONLY") else "")
@@ -213,14 +233,9 @@ def run_all(tier):
         scheds += [closure_norestart(s) for s in base if "upgrade" not in s["name"] and ("in_sender" in s["name"] or "out_receiver" in s["name"] or "mixed" in s["name"])
                    and not any(st.get("crash") or st.get("faults") for st in s["steps"])]   # failure-free prefixes only: a lost store write / callback is healed only by a restart
         sp = os.path.join(wd, "schedules.ndjson")
-        with open(sp, "w") as f:
-            for s in scheds:
-                f.write(json.dumps(s) + "\n")
         trace = os.path.join(wd, "trace.ndjson")
-        nodes = tempfile.mkdtemp(prefix="verif-nodes-", dir="/dev/shm" if os.path.isdir("/dev/shm") else None)
         t1 = time.time()
-        vp.run([binp, "-schedules", sp, "-out", trace, "-workers", str(vp.NCPU), "-tmp", nodes], timeout=tmo)
-        shutil.rmtree(nodes, ignore_errors=True)
+        run_psim(binp, scheds, sp, trace, tmo)
         vp.log("  code: %d schedules run in %.1fs" % (len(scheds), time.time() - t1))
         t1 = time.time()
         v = {}
@@ -230,13 +245,8 @@ def run_all(tier):
         rsched = [dict(s, cfg=dict(s["cfg"], retransmit=True)) for s in scheds[:nmodel]
                   if s["cfg"]["chain"] == "btc" and ("in_sender" in s["name"] or "out_receiver" in s["name"]) and "crash" not in s["name"] and len(s["steps"]) >= 3][:2500 if tier == "quick" else 8000]
         rp = os.path.join(wd, "rschedules.ndjson")
-        with open(rp, "w") as f:
-            for s in rsched:
-                f.write(json.dumps(s) + "\n")
         rtrace = os.path.join(wd, "rtrace.ndjson")
-        nodes = tempfile.mkdtemp(prefix="verif-nodes-", dir="/dev/shm" if os.path.isdir("/dev/shm") else None)
-        vp.run([binp, "-schedules", rp, "-out", rtrace, "-workers", str(vp.NCPU), "-tmp", nodes, "-retransmit", "25ms"], timeout=tmo)
-        shutil.rmtree(nodes, ignore_errors=True)
+        run_psim(binp, rsched, rp, rtrace, tmo, extra=["-retransmit", "25ms"])
         rv = {}
         rv["n"], rall = validate_chunks(sd, rtrace, tmo)
         rviol = [x for x in rall if x["sig"].startswith("C22|")]
